@@ -29,17 +29,19 @@ def cfg_text():
     return 'SPECIFICATION Spec\n' + ''.join('INVARIANT %s\n' % i for i in META_INV) + 'CHECK_DEADLOCK FALSE\n'
 
 
-def meta_config(name, pars, maxlen, fmtlists=(), cands=(), exts=(), workers=8, ipaddrs=(), ipctxs=()):
+def meta_config(name, pars, maxlen, fmtlists=(), cands=(), exts=(), workers=8, ipaddrs=(), ipctxs=(), decbase=(), decmids=(), decctxs=()):
     return dict(name=name, module='PregexMeta', cfg=cfg_text(), workers=workers, invariants=META_INV, timeout=3000,
                 defs={'Pars': pars_tla(pars), 'MaxLen': maxlen,
                       'DateFmtLists': RawTLA('{' + ', '.join(tla_value(tuple(f)) for f in fmtlists) + '}'),
                       'DateCands': RawTLA('{' + ', '.join(tla_value(c) for c in cands) + '}'),
                       'DateExts': set(exts),
-                      'IPAddrs': set((v6, D(a)) for v6, a in ipaddrs), 'IPCtxs': set(D(c) for c in ipctxs)})
+                      'IPAddrs': set((v6, D(a)) for v6, a in ipaddrs), 'IPCtxs': set(D(c) for c in ipctxs),
+                      'DecBasePars': pars_tla(decbase), 'DecMids': set(D(m) for m in decmids), 'DecCtxs': set(D(c) for c in decctxs)})
 
 
 INT_KINDS = [('Integer', False), ('Integer', True), ('PositiveInteger', False), ('NegativeInteger', False), ('UnsignedInteger', False)]
-RANGES_Q = [(0, 9), (1, 100), (0, 2147483647), (5, 5), (10, 99), (99, 101), (0, 0), (19, 21), (2, 120), (9, 10)]
+RANGES_Q = [(0, 9), (1, 100), (0, 2147483647), (5, 5), (10, 99), (99, 101), (0, 0), (19, 21), (2, 120), (9, 10), (1, 21), (12, 1),
+            (1, 199), (11, 99), (2, 50), (25, 0)]      # incl. pairs whose decimal spellings concatenate alike: (1,21)/(12,1)->skipped if lo>hi
 RANGES_T = RANGES_Q + [(0, 1), (1, 9), (11, 19), (20, 99), (100, 101), (109, 110), (199, 200), (90, 110), (12, 1000), (999, 1001),
                        (1, 2147483647), (7, 7), (0, 10), (100, 999), (101, 909)]
 
@@ -76,13 +78,18 @@ def dec_configs(tier, seed):
             for kind, sign in DEC_KINDS:
                 for ext in (False, True):
                     ps.append(par(kind, '015.+-' if tier != 'quick' else '015.-', ext=ext, sign=sign, lo=lo, hi=hi, dmin=a, dmax=b))
-    return [meta_config('decimals-exact', ps, 4 if tier == 'quick' else 5)]
+    base = [par(kind, '', sign=sign, lo=lo, hi=hi, dmin=a, dmax=b) for (lo, hi) in [(0, 9), (1, 100)] for (a, b) in [(1, -1), (2, 3)]
+            for kind, sign in DEC_KINDS]
+    mids = ['.5', '.75', '0.5', '1.25', '9.123', '-.5', '-1.5', '+.25', '+7.5', '100.10', '0.0']
+    ctxs = ['', ' ', ',', ';', '(', ')', '\n', ', ', '!'] if tier != 'quick' else ['', ' ', ',', '(', '\n']
+    return [meta_config('decimals-exact', ps, 4 if tier == 'quick' else 5),
+            meta_config('decimals-embedded', [], 0, decbase=base, decmids=mids, decctxs=ctxs)]
 
 
 def word_configs(tier, seed):
     ps = []
-    bases = [2, 8, 10, 16] if tier == 'quick' else list(range(2, 17))
-    bounds = [(1, -1), (0, 2), (2, 2), (1, 3), (2, -1)] if tier == 'quick' else [(a, b) for a in (0, 1, 2, 3) for b in (-1, 1, 2, 3) if b == -1 or a <= b]
+    bases = list(range(2, 17))
+    bounds = [(1, -1), (1, 1), (0, 2), (2, 3)] if tier == 'quick' else [(a, b) for a in (0, 1, 2, 3) for b in (-1, 1, 2, 3) if b == -1 or a <= b]
     for b in bases:
         hi = '0123456789abcdef'[b - 1]
         nx = '0123456789abcdefg'[b]
@@ -95,7 +102,8 @@ def word_configs(tier, seed):
         for glob in (True, False):
             for ext in (False, True):
                 ps.append(par('Word', 'aB1_ -', ext=ext, nmin=n, nmax=m, glob=glob))
-    affix_sets = [('a',), ('ab',), ('b', 'a1'), ('_',)] if tier == 'quick' else [('a',), ('ab',), ('b', 'a1'), ('_',), ('aa', 'b'), ('1',), ('ab', 'ba', 'B')]
+    affix_sets = [('a',), ('ab',), ('b', 'a1'), ('_',), ('b', 'ab'), ('a', 'ba')] if tier == 'quick' else \
+        [('a',), ('ab',), ('b', 'a1'), ('_',), ('aa', 'b'), ('1',), ('ab', 'ba', 'B'), ('b', 'ab'), ('a', 'ba'), ('1', 'a1b')]
     for k in ('WordContains', 'WordStartsWith', 'WordEndsWith'):
         for aff in affix_sets:
             for glob in (True, False):
